@@ -17,6 +17,7 @@ from sa.pyfront import Program
 from sa.symex import Interp, flat_guards
 
 RULES = {
+    "R-C14-i": "the intersection kernel the walk calls accepts the row-id arrays of any well-formed index, strided views included (general [:] memoryview parameters)",
     "R-C14-a": "every callback invocation / recursion carries (base ++ entry coords, entry rows | INTERSECT(base rows, entry rows)) from one loop iteration, or (base ++ (-1,), base rows)",
     "R-C14-b": "every emission, and every recursion on an intersection, is dominated by a truthiness test of len(rows)",
     "R-C14-c": "margins: on the multi-dimension path the marginal recursion happens once per activation, unconditionally; on the last dimension the marginal emission happens iff base rows exist and are non-empty",
@@ -320,6 +321,12 @@ def main(tier):
     prog = Program()
     analyse(prog, rep)
     walk_rules(prog, rep)
+    # R-C14-i: the walk hands the index's own row-id arrays to the intersection kernel, so the kernel must accept whatever
+    # layout a well-formed index may hold (a strided view is sorted, unique, uint32): decided on the kernel's declared types
+    from sa import cyfront
+    import c08
+    funcs = [f for f in cyfront.functions(cyfront.load()) if f.name == "set_intersect_merge_np"]
+    rep.floor("R-C14-i", 2, c08.check_general_views(rep, funcs, rule="R-C14-i"))
     return rep.finish()
 
 
